@@ -3,7 +3,7 @@
 From Coq Require Import List Arith Bool ZArith Reals Lra Lia.
 From P Require Import Geom Comb Cross Tiling Centroid.
 From Gen Require Import GenRefine GenArea GenPos GenDecomp GenGood.
-From P Require Import Model Conform Main.
+From P Require Import Model Conform Main Decomp73 Layouts.
 Import ListNotations.
 Open Scope nat_scope.
 
@@ -237,10 +237,9 @@ Lemma apply_rule_wn nn straight re start e (cs : list pt) c p :
   apply_rule nn straight re = DSub start e -> length cs = nn -> start < nn ->
   zsum (child_wns cs c start e p) = wn cs p.
 Proof.
-  intros [d Hin] Ha Hl Hs. destruct re as [rule e']. unfold apply_rule in Ha. cbn [fst snd] in Hin.
-  destruct (match rule with StraightFirst => hd_error straight | StartAfterGap => start_after_gap nn straight end);
-    [|discriminate]. inversion Ha; subst.
-  eapply decompose_entry_wn_; eauto. eapply decompose_table_sizes; eauto.
+  intros [d Hin] Ha Hl Hs. destruct (apply_rule_cases _ _ _ _ _ Ha) as [->|[-> ->]].
+  - eapply decompose_entry_wn_; eauto. eapply decompose_table_sizes; eauto.
+  - subst nn. apply fan_wn_.
 Qed.
 Lemma decompose_column_crossing_ (cs : list pt) (c p : pt) (straight : list nat) start e :
   decompose_model (length cs) straight = DSub start e -> start < length cs ->
@@ -270,6 +269,123 @@ Proof.
   pose proof (children_good_01 cs c start e p Hg) as H01. split; intro Hw.
   - apply all01_sum1; auto. congruence.
   - apply all01_sum0; auto. congruence.
+Qed.
+
+(** ** decompose_column: complete case analysis.  Its result is the fan or a table entry; entries
+    (and the fan) all of whose new columns contain the centre node tile for ANY position of the
+    straight nodes as soon as the centre has every side strictly on its left; the three
+    centre-less entries tile in the layouts their guards select (Layouts.v). *)
+Lemma decompose_model_result nn straight start e :
+  decompose_model nn straight = DSub start e ->
+  (start = 0 /\ e = fan nn) \/ exists ns d rule, In ((nn, ns, d), rule, e) decompose_table.
+Proof.
+  unfold decompose_model. destruct (nn <=? 4); [discriminate|].
+  destruct (nn <=? 8); [|intro H; inversion H; auto].
+  destruct (assoc_d nn (length straight) None decompose_table) as [re|] eqn:E1.
+  - intro H. destruct (apply_rule_cases _ _ _ _ _ H) as [->|[-> ->]]; [right|left; auto].
+    destruct (assoc_d_In _ _ _ _ _ E1) as [d' Hd]. exists (length straight), d', (fst re). exact Hd.
+  - destruct (has_d_entries nn (length straight) decompose_table); [|intro H; inversion H; auto].
+    destruct straight as [|s0 [|s1 r]]; try discriminate.
+    destruct (assoc_d nn (length (s0 :: s1 :: r)) (Some (index_dist nn s0 s1)) decompose_table) as [re|] eqn:E2;
+      [|intro H; inversion H; auto].
+    intro H. destruct (apply_rule_cases _ _ _ _ _ H) as [->|[-> ->]]; [right|left; auto].
+    destruct (assoc_d_In _ _ _ _ _ E2) as [d' Hd]. exists (length (s0 :: s1 :: r)), d', (fst re). exact Hd.
+Qed.
+Lemma fan_all_centre n : all_centre (fan n) = true.
+Proof.
+  unfold all_centre, fan. apply forallb_forall. intros ch Hch. apply in_map_iff in Hch.
+  destruct Hch as [i [<- _]]. rewrite gen_fan_child_shape. reflexivity.
+Qed.
+Lemma decompose_centre_tiles_ (cs : list pt) (c : pt) (straight : list nat) start e :
+  decompose_model (length cs) straight = DSub start e -> start < length cs ->
+  interior cs c -> all_centre e = true ->
+  children_simple cs c start e /\ tiles cs (children_polys cs c start e).
+Proof.
+  intros Hd Hs Hi Hc.
+  assert (Hsimple : children_simple cs c start e).
+  { destruct (decompose_model_result _ _ _ _ Hd) as [[-> ->]|(ns & d & rule & Hin)].
+    - apply children_good_simple. apply fan_children_good; auto.
+    - apply (decompose_table_simple_gen _ _ _ _ _ Hin Hc); auto. }
+  split; auto. intro p. rewrite wns_children. split; [apply children_simple_01; auto|].
+  eapply decompose_column_crossing_; eauto.
+Qed.
+Lemma decompose_good_tiles_ (cs : list pt) (c : pt) (straight : list nat) start e :
+  decompose_model (length cs) straight = DSub start e -> start < length cs ->
+  children_good cs c start e -> tiles cs (children_polys cs c start e).
+Proof.
+  intros Hd Hs Hg p. rewrite wns_children. split; [apply children_good_01; auto|].
+  eapply decompose_column_crossing_; eauto.
+Qed.
+Lemma rotl_length {X} r (l : list X) : length (rotl r l) = length l.
+Proof. unfold rotl. rewrite app_length, skipn_length, firstn_length. lia. Qed.
+
+Lemma decompose_5_1_tiles_ (A B C D : pt) (t : R) (c : pt) (r start : nat) (e : entry) :
+  convex_ccw [A; B; C; D] -> (0 < t < 1)%R -> r < 5 ->
+  decompose_model 5 (straight_rot 5 [0] r) = DSub start e ->
+  let cs := rotl r (pent_layout A B C D t) in
+  children_good cs c start e /\ tiles cs (children_polys cs c start e).
+Proof.
+  intros Hc Ht Hr Hd cs. destruct (pent_good_ A B C D t c r start e Hc Ht Hr Hd) as [Hs Hg].
+  split; auto. apply (decompose_good_tiles_ cs c (straight_rot 5 [0] r)); auto; unfold cs; rewrite rotl_length; auto.
+Qed.
+Lemma decompose_6_2_3_tiles_ (A B C D : pt) (t0 t1 : R) (c : pt) (r start : nat) (e : entry) :
+  convex_ccw [A; B; C; D] -> (0 < t0 < 1)%R -> (0 < t1 < 1)%R -> r < 6 ->
+  decompose_model 6 (straight_rot 6 [0; 3] r) = DSub start e ->
+  let cs := rotl r (hex_layout A B C D t0 t1) in
+  children_good cs c start e /\ tiles cs (children_polys cs c start e).
+Proof.
+  intros Hc H0 H1 Hr Hd cs. destruct (hex_good_ A B C D t0 t1 c r start e Hc H0 H1 Hr Hd) as [Hs Hg].
+  split; auto. apply (decompose_good_tiles_ cs c (straight_rot 6 [0; 3] r)); auto; unfold cs; rewrite rotl_length; auto.
+Qed.
+Lemma decompose_7_3_tiles_ (A B C D : pt) (t0 t1 t2 : R) (c : pt) (r start : nat) (e : entry) :
+  convex_ccw [A; B; C; D] -> (0 < t0 < 1)%R -> (0 < t1 < 1)%R -> (0 < t2 < 1)%R -> r < 7 ->
+  decompose_model 7 (straight_layout r) = DSub start e ->
+  let cs := rotl r (hept_layout A B C D t0 t1 t2) in
+  children_good cs c start e /\ tiles cs (children_polys cs c start e).
+Proof.
+  intros Hc H0 H1 H2 Hr Hd cs. destruct (hept_good_ A B C D t0 t1 t2 c r start e Hc H0 H1 H2 Hr Hd) as [Hs Hg].
+  split; auto. apply (decompose_good_tiles_ cs c (straight_layout r)); auto; unfold cs; rewrite rotl_length; auto.
+Qed.
+
+(** coverage: every result of decompose_model is centre-based or one of the three entries above *)
+Definition key_eqb (a b : nat * nat * option nat) : bool :=
+  match a, b with (n, s, d), (n', s', d') => (n =? n') && (s =? s') && opt_nat_eqb d d' end.
+Definition centreless_keys : list (nat * nat * option nat) := [(5, 1, None); (6, 2, Some 3); (7, 3, None)].
+Definition decompose_cover_ok : bool :=
+  forallb (fun x => match x with (k, _, e) => all_centre e || existsb (key_eqb k) centreless_keys end) decompose_table.
+Lemma decompose_cover_ok_true : decompose_cover_ok = true.
+Proof. vm_compute. reflexivity. Qed.
+Lemma decompose_cases_covered_ nn straight start e :
+  decompose_model nn straight = DSub start e ->
+  all_centre e = true \/ exists k rule, In (k, rule, e) decompose_table /\ existsb (key_eqb k) centreless_keys = true.
+Proof.
+  intro Hd. destruct (decompose_model_result _ _ _ _ Hd) as [[-> ->]|(ns & d & rule & Hin)].
+  - left. apply fan_all_centre.
+  - pose proof decompose_cover_ok_true as H. unfold decompose_cover_ok in H. rewrite forallb_forall in H.
+    specialize (H _ Hin). cbn beta iota in H. apply orb_true_iff in H. destruct H as [H|H]; [left; auto|].
+    right. exists (nn, ns, d), rule. auto.
+Qed.
+
+(** ** the modelled operations are tiling steps (relation [tiles] of Tiling.v) *)
+Lemma refine_is_tiling_step_ (cs : list pt) (c : pt) (sides : list nat) :
+  length cs = 3 \/ length cs = 4 -> is_side_set (length cs) sides = true -> sides <> [] ->
+  convex_ccw cs -> interior cs c -> centre_ok cs c ->
+  exists istart e, refine_children (length cs) sides = Some (istart, e) /\ tiles cs (children_polys cs c istart e).
+Proof.
+  intros Hnn Hs Hne Hc Hi Hce.
+  destruct (refine_column_tiles_ cs c sides Hnn Hs Hne Hc Hi Hce) as (istart & e & Hr & Hg & Ht & _).
+  exists istart, e. split; auto. intro p. rewrite wns_children. split; [apply children_good_01; auto|apply Ht].
+Qed.
+Lemma split_is_tiling_step_ (cs : list pt) (c : pt) i0 :
+  length cs = 4 -> i0 < 4 -> convex_ccw cs -> tiles cs (children_polys cs c i0 split_entry).
+Proof.
+  intros Hl Hi Hc. destruct (split_column_tiles_ cs c i0 Hl Hi Hc) as (_ & Hg & Ht & _).
+  intro p. rewrite wns_children. split; [apply children_good_01; auto|apply Ht].
+Qed.
+Lemma triangulate_is_tiling_step_ (cs : list pt) (c : pt) :
+  interior cs c -> tiles cs (children_polys cs c 0 (fan (length cs))).
+Proof.
+  intros Hi p. rewrite wns_children. split; [apply children_good_01; apply fan_children_good; auto|apply fan_wn_].
 Qed.
 
 (** ** conformity lifted from one column to a shared side, with the dict sidenodes as a finite map *)
